@@ -38,7 +38,7 @@ void h_morton_at(void)
   MORTON_SELF_T in_self;
   in_self.m_sizes = nondet_nd_size();
   IN_VEC_T in_c = nondet_in_vec();
-  verif_ghost_k = nondet_unsigned();
+  verif_ghost_m = nondet_size_t();
   verif_b_size = nondet_size_t();
   verif_b_result = (OUT_VEC_PTR_T)nondet_size_t();
   verif_b_calls = 0;
@@ -52,6 +52,7 @@ void h_morton_alloc_copy(void)
 {
   ND_SIZE_T in_sizes = nondet_nd_size();
   verif_ghost_k = nondet_unsigned();
+  verif_ghost_m = nondet_size_t();
   size_t r = morton_alloc_size_copy(in_sizes);
   (void)r;
   VERIF_REACH();
@@ -60,6 +61,7 @@ void h_morton_alloc_ctor(void)
 {
   ND_SIZE_T in_sizes = nondet_nd_size();
   verif_ghost_k = nondet_unsigned();
+  verif_ghost_m = nondet_size_t();
   size_t r = morton_alloc_size_ctor(in_sizes);
   (void)r;
   VERIF_REACH();
@@ -72,7 +74,8 @@ void h_morton_sizing(void)
   ND_SIZE_T in_sizes = nondet_nd_size();
   IN_VEC_T in_c = nondet_in_vec();
   verif_ghost_k = nondet_unsigned();
-  __CPROVER_assume(MORTON_SIZES_OK(in_sizes));
+  verif_ghost_m = nondet_size_t();
+  __CPROVER_assume(MORTON_SIZES_OK(in_sizes) && MORTON_FAR_IS(verif_ghost_m, in_sizes, vqs));
   for (unsigned j = 0; j < DIMS_IN; j++)
     __CPROVER_assume(in_c.m_data[j] >= 0 && (uint64_t)in_c.m_data[j] < in_sizes.m_data[j]);
   size_t alloc = morton_alloc_size_ctor(in_sizes);
@@ -92,5 +95,19 @@ void h_morton_injective(void)
   if (i1 == i2)
     for (unsigned j = 0; j < DIMS_IN; j++)
       __CPROVER_assert(in_c1.m_data[j] == in_c2.m_data[j], "equal Morton positions imply equal coordinates");
+  VERIF_REACH();
+}
+
+/* interleaving is monotone for the componentwise order (over the contract): c_j <= m_j for all j  ==>  Z(c) <= Z(m).
+ * With it, "storage has more cells than the position of the far corner (sizes - 1)" suffices for every in-range c. */
+void h_morton_monotone(void)
+{
+  IN_VEC_T in_c = nondet_in_vec();
+  IN_VEC_T in_m = nondet_in_vec();
+  __CPROVER_assume(MORTON_DOMAIN(in_c) && MORTON_DOMAIN(in_m));
+  for (unsigned j = 0; j < DIMS_IN; j++) __CPROVER_assume(in_c.m_data[j] <= in_m.m_data[j]);
+  size_t zc = morton_calculate_index(in_c);
+  size_t zm = morton_calculate_index(in_m);
+  __CPROVER_assert(zc <= zm, "Morton position is monotone in every coordinate");
   VERIF_REACH();
 }
